@@ -281,26 +281,38 @@ func implFuzz(h caseHead, raw []byte) map[string]any {
 			}
 		}()
 		var err error
+		var rep string
+		isReport := true
 		switch ph.Entry {
 		case 0:
-			_, err = pkg.Validate(h.Profile, h.Data, false, nil)
+			rep, err = pkg.Validate(h.Profile, h.Data, false, nil)
 		case 2:
-			_, err = pkg.ValidateWithConfiguration(h.Profile, h.Data, false, nil, fixedClock{}, defaultRC())
+			rep, err = pkg.ValidateWithConfiguration(h.Profile, h.Data, false, nil, fixedClock{}, defaultRC())
 		case 4:
 			_, err = pkg.CompileProfile(h.Profile, false, nil)
+			isReport = false
 		default:
 			var c *regoPrepared
 			c, err = pkg.CompileProfile(h.Profile, false, nil)
+			isReport = false
 			if err == nil {
+				isReport = true
 				if ph.Entry == 1 {
-					_, err = pkg.ValidateCompiled(c, h.Data, false, nil)
+					rep, err = pkg.ValidateCompiled(c, h.Data, false, nil)
 				} else {
-					_, err = pkg.ValidateCompiledWithConfiguration(c, h.Data, false, nil, fixedClock{}, defaultRC())
+					rep, err = pkg.ValidateCompiledWithConfiguration(c, h.Data, false, nil, fixedClock{}, defaultRC())
 				}
 			}
 		}
 		if err != nil {
 			rc <- ret{"err", err.Error()}
+		} else if isReport {
+			// "a report" means a report: one dialect instance encoding one validation-report node
+			if _, rerr := ReadReport(rep); rerr != nil {
+				rc <- ret{"noreport", fmt.Sprintf("nil error but the returned text (%d bytes) is not a report: %v", len(rep), rerr)}
+			} else {
+				rc <- ret{"ok", ""}
+			}
 		} else {
 			rc <- ret{"ok", ""}
 		}
